@@ -764,7 +764,7 @@ func runB12(p *an.Prog, r *an.Result) {
 			}
 			// saturation: on the non-empty side, where the difference was found not to be positive (it wrapped
 			// around: more elements than an int counts), the largest int is returned
-			if c, ok := an.ConstInt(v); ok && c == math.MaxInt64 && side == "nonempty" {
+			if c, ok := an.ConstInt(v); ok && (c == math.MaxInt64 || c == math.MaxInt32) && side == "nonempty" {
 				for _, g := range guards {
 					if bo, ok := g.Cond.(*ssa.BinOp); ok && isDiff(bo.X) {
 						if z, isC := an.ConstInt(bo.Y); isC && z == 0 && (bo.Op == token.GTR && !g.True || bo.Op == token.LEQ && g.True) {
